@@ -136,6 +136,16 @@ func (w *World) enumCases() []enumCase {
 				}
 			}
 		}
+		// every length 0..33 (and a healthy 64) of every standard-library
+		// reader type the device can be presented as: a reader that simply
+		// ends after j bytes
+		for j := -1; j <= 33; j++ {
+			for std := 1; std < kernel.StdKinds; std++ {
+				cfg := kernel.DevCfg{Payload: kernel.PayPRNG, Seed: seed + uint64(j+1), ErrAt: j, ErrKind: 1, Std: std}
+				key := (j + std) & 1
+				cases = append(cases, enumCase{fmt.Sprintf("%s std=%d ends@%d", sk.name, std, j), func(step int) { sk.run(step, key, cfg) }})
+			}
+		}
 		// every partition with and without zero-length reads, healthy
 		for pi, p := range partitions {
 			for _, z := range []bool{false, true} {
